@@ -250,3 +250,39 @@ Theorem C19_history_stateless : forall steps : list hist_step,
   run19_hist steps = SK.lib.Tok.L (map (fun x => run19 (fst (fst (fst x))) (snd (fst (fst x))) (snd (fst x)) (snd x)) steps).
 Proof. exact run19_hist_stateless. Qed.
 Print Assumptions C19_history_stateless.
+
+(** (14) documentation of the defect repaired in round 3 (/repo a58b70a): an UNDIRECTED bipartite input was converted with
+         nx.DiGraph(U) (both directions per incidence), so every coefficient was counted twice: in general the vectors are
+         doubled, and A + B -> C, C -> A + B got the complexes (2,2,0), (0,0,2), which are no sides of any reaction. *)
+Theorem C19_undirected_input_refuted :
+  (forall ro net iso e, cvec_undirected_doubled ro net iso e = map (fun z => (2 * z)%Z) (cvec ro net iso e)) /\
+  exists net, NoDup (map rid net) /\
+    fst (complex_graph net []) = [[1;1;0]; [0;0;1]]%Z /\
+    fst (complex_graph_undirected_doubled net []) = [[2;2;0]; [0;0;2]]%Z /\
+    ~ (forall v, In v (fst (complex_graph_undirected_doubled net [])) ->
+         exists e, In e net /\ (v = side_vec net [] (rlhs e) \/ v = side_vec net [] (rrhs e))).
+Proof. split; [exact cvec_undirected_doubled_eq | exact undirected_input_refuted]. Qed.
+Print Assumptions C19_undirected_input_refuted.
+
+(** (15) the staged state machine of the analyzer (compute_summary / compute_linkage_deficiencies /
+         run_deficiency_one_algorithm; routes 0 = compute_crn_deficiency, 1 = the three stages by hand, 2 = summary + front end):
+         from ANY previous state every route leaves exactly the fresh analysis of the current network in the object, what the
+         adapter reads from it is run19, and a whole history (re-used analyzer and brand-new analyzer per step) is the list of
+         fresh analyses.  This is the function the correspondence evaluates for call histories. *)
+Theorem C19_state_machine :
+  (forall style x st, route style x st = route 0 x a_init) /\
+  (forall x, hs_net x <> [] -> obs_of_state x (route 0 x a_init) = run19 (hs_net x) (hs_iso x) (hs_rc x) (hs_ccs x)) /\
+  (forall steps, run19_sm steps =
+     SK.lib.Tok.L (flat_map (fun sx => [run19 (hs_net (snd sx)) (hs_iso (snd sx)) (hs_rc (snd sx)) (hs_ccs (snd sx));
+                                        run19 (hs_net (snd sx)) (hs_iso (snd sx)) (hs_rc (snd sx)) (hs_ccs (snd sx))]) steps)).
+Proof. split; [exact route_fresh | split; [exact obs_fresh_run19 | exact run19_sm_stateless]]. Qed.
+Print Assumptions C19_state_machine.
+
+(** (16) documentation of the defect repaired in round 3 (/repo 7d0fc98): with the summary stage that KEPT the derived fields,
+         A -> 2A -> 3A analysed, 2A -> 3A removed, then route 2 on the same analyzer: deficiency 0 next to the class
+         deficiencies [1] of the previous network (the repaired machine and a fresh analysis give [0]). *)
+Theorem C19_stale_summary_route_refuted :
+  a_ld lad_stale = Some [1%Z] /\ st_deficiency lad_stale = Some 0%Z /\
+  a_ld (route 2 lad_x2 (route 0 lad_x1 a_init)) = Some [0%Z] /\ a_ld (route 0 lad_x2 a_init) = Some [0%Z].
+Proof. exact stale_summary_route_refuted. Qed.
+Print Assumptions C19_stale_summary_route_refuted.
